@@ -28,6 +28,9 @@ type c19Case struct {
 	Shape   int        `json:"shape"`
 	Steps   [][]vh.Val `json:"steps"`   // per goroutine: the sequence of values decoded
 	Choices []int      `json:"choices"` // schedule (only with more than one goroutine)
+	// Prefill: distinct strings decoded through every interned field of the instance, one after the
+	// other, before the goroutines start - so that their misses happen on tables of that size
+	Prefill int `json:"prefill,omitempty"`
 }
 
 // c19Shapes returns (interned type, twin without the intern option).
@@ -271,6 +274,22 @@ func c19Run(c c19Case, x *vh.Ctx) *vh.Failure {
 		}
 		return nil
 	}
+	if c.Prefill > 0 {
+		it, _ := c19Shape(c.Shape)
+		irt := it.Build()
+		for i := 0; i < c.Prefill; i++ {
+			v := c07FixedVal(it)
+			setStrings(it, &v, func() []byte { return []byte(fmt.Sprintf("pre-%d", i)) })
+			data, err := p.Marshal(nil, vh.ToReflect(it, v).Addr().Interface())
+			if err != nil {
+				return vh.Fail("C19/marshal-error", "prefill: %v", err)
+			}
+			if err := p.Unmarshal(data, reflect.New(irt).Interface()); err != nil {
+				return vh.Fail("C19/unmarshal-error", "prefill: %v", err)
+			}
+		}
+		x.Label(fmt.Sprintf("prefill:%d", (c.Prefill+8)/16*16))
+	}
 	fails := make([]*vh.Failure, len(c.Steps))
 	stats := make([][3]int, len(c.Steps))
 	workers := make([]func(), len(c.Steps))
@@ -307,7 +326,19 @@ func c19Run(c c19Case, x *vh.Ctx) *vh.Failure {
 }
 
 var c19Seq = &vh.Prop[c19Case]{ID: "C19", Name: "sequential-history", Gen: func(t *rapid.T) c19Case { return genC19(t, 1) }, Run: c19Run}
-var c19Sched = &vh.Prop[c19Case]{ID: "C19", Name: "owned-schedule", Gen: func(t *rapid.T) c19Case { return genC19(t, 3) }, Run: c19Run}
+var c19Sched = &vh.Prop[c19Case]{ID: "C19", Name: "owned-schedule", Slow: 4, Gen: func(t *rapid.T) c19Case {
+	c := genC19(t, 3)
+	// sometimes the tables are just below a power of two (where a size cap or a growth step would sit)
+	// when the goroutines start to miss
+	if rapid.IntRange(0, 15).Draw(t, "prefilled") == 0 {
+		bases := []int{256, 1024, 1024}
+		if vh.Thorough() {
+			bases = []int{256, 1024, 4096, 1024}
+		}
+		c.Prefill = bases[rapid.IntRange(0, len(bases)-1).Draw(t, "prebase")] - rapid.IntRange(0, 8).Draw(t, "preoff")
+	}
+	return c
+}, Run: c19Run}
 
 func TestC19Sequential(t *testing.T) { c19Seq.Check(t, vh.N(4000, 40000)) }
 
